@@ -1,5 +1,5 @@
 """Source of truth for MANIFEST.json (bin/mkmanifest)."""
-HOOK_COMMITS = ["960f1cc"]
+HOOK_COMMITS = ["960f1cc", "cb4b143"]
 _TB = ("Trusted base: TLC 1.8 and the TLA+ module Wide (exact integers, model-checked against native ints in MCWide); "
        "the harness encoders (JSON/limb writer); clang UBSan in trap mode as the observer of undefined arithmetic; ")
 CHECKS = {
